@@ -130,18 +130,44 @@ fn build_app() -> Ohkami {
             let r = ran(json!({"q": q}));
             async move { r }
         }),
-        "/json".POST(|JSON(j): JSON<J>| {
-            let r = ran(json!({"j": j}));
-            async move { r }
-        }),
+        "/json"
+            .POST(|JSON(j): JSON<J>| {
+                let r = ran(json!({"j": j}));
+                async move { r }
+            })
+            .PUT(|JSON(j): JSON<J>| {
+                let r = ran(json!({"j": j}));
+                async move { r }
+            })
+            .PATCH(|JSON(j): JSON<J>| {
+                let r = ran(json!({"j": j}));
+                async move { r }
+            })
+            .DELETE(|JSON(j): JSON<J>| {
+                let r = ran(json!({"j": j}));
+                async move { r }
+            })
+            .GET(|JSON(j): JSON<J>| {
+                let r = ran(json!({"j": j}));
+                async move { r }
+            }),
         "/form".POST(|URLEncoded(f): URLEncoded<F>| {
             let r = ran(json!({"f": f}));
             async move { r }
         }),
-        "/text".POST(|Text(s): Text<String>| {
-            let r = ran(json!({"t": s}));
-            async move { r }
-        }),
+        "/text"
+            .POST(|Text(s): Text<String>| {
+                let r = ran(json!({"t": s}));
+                async move { r }
+            })
+            .DELETE(|Text(s): Text<String>| {
+                let r = ran(json!({"t": s}));
+                async move { r }
+            })
+            .GET(|Text(s): Text<String>| {
+                let r = ran(json!({"t": s}));
+                async move { r }
+            }),
         "/multi".POST(|Multipart(m): Multipart<MP>| {
             let r = ran(json!({"m": m}));
             async move { r }
@@ -389,7 +415,8 @@ fn gen_req() -> Req {
                 (_, "grey") => ("grey", "content-type-case"),
                 (tg, _) => (tg, "json-body"),
             };
-            mk("POST", "/json".into(), ct, Some(body), tag, "json", what, if tag == "invalid" { None } else { exp.map(|e| json!({"j": e})) })
+            // a body is a body under every method that has a handler declaring it
+            mk(t::pick(&["POST", "POST", "PUT", "PATCH", "DELETE", "GET"]), "/json".into(), ct, Some(body), tag, "json", what, if tag == "invalid" { None } else { exp.map(|e| json!({"j": e})) })
         }
         5 => {
             let a = t::string(b"abcXYZ019-_.~", 0, 8);
@@ -419,7 +446,7 @@ fn gen_req() -> Req {
                     if s.is_empty() {
                         mk("POST", "/text".into(), Some("text/plain"), None, "invalid", "text", "missing-payload", None)
                     } else {
-                        mk("POST", "/text".into(), Some(t::pick(&["text/plain", "text/plain; charset=UTF-8"])), Some(s.as_bytes().to_vec()), "valid", "text", "text-body", Some(json!({"t": s})))
+                        mk(t::pick(&["POST", "POST", "DELETE", "GET"]), "/text".into(), Some(t::pick(&["text/plain", "text/plain; charset=UTF-8"])), Some(s.as_bytes().to_vec()), "valid", "text", "text-body", Some(json!({"t": s})))
                     }
                 }
                 1 => mk("POST", "/text".into(), Some("text/plain"), Some(vec![b'a', 0xff, b'b']), "invalid", "text", "text-non-utf8", None),
